@@ -162,6 +162,10 @@ func (ev *errCondEval) consistent(cond ast.Expr, val bool) map[errState]bool {
 	return out
 }
 
+// errTolerances collects, per run, the places where a function goes on although an error
+// is known to be one of the values it was compared with: key "function: value".
+var errTolerances = map[string]string{}
+
 type errFlowSite struct {
 	key, pos, how string
 	path          []string
@@ -355,6 +359,11 @@ func errFlowFrom(p *Prog, c *FuncCFG, fn *FuncNode, def Point, e *types.Var) (st
 					}
 				}
 				if len(cons) == 0 || resolved {
+					for st := range cons {
+						if st >= 2 && int(st)-2 < len(ev.classes) {
+							errTolerances[fn.Name+": "+ev.classes[int(st)-2]] = c.P.Position(cond.Pos())
+						}
+					}
 					goto nextSucc
 				}
 				if nonNil {
